@@ -1,7 +1,36 @@
 (* Model of tskit/combinatorics.py: class Combination (Python big ints = Z). *)
 From Coq Require Import List ZArith Bool Lia.
+From TskVerif Require Import Base.Common.
 Import ListNotations.
 Open Scope Z_scope.
+
+(* ------------------------------------------------------------------------------
+   A generic bounded loop.  [step s] either continues with a new state or stops with
+   an output.  [iter_pow d s] runs at most 2^d steps without ever building a large
+   unary number ([inl] at the end = the bound was hit).  [iter_nat] is the plain
+   unary-fuel version used in proofs. *)
+Section Loop.
+  Context {St Out : Type}.
+  Variable step : St -> res (St + Out).
+
+  Fixpoint iter_nat (f : nat) (s : St) : res (St + Out) :=
+    match f with
+    | O => Ok (inl s)
+    | S f' => match step s with
+              | Ok (inl s') => iter_nat f' s'
+              | r => r
+              end
+    end.
+
+  Fixpoint iter_pow (d : nat) (s : St) : res (St + Out) :=
+    match d with
+    | O => step s
+    | S d' => match iter_pow d' s with
+              | Ok (inl s') => iter_pow d' s'
+              | r => r
+              end
+    end.
+End Loop.
 
 (* Combination.comb: k = min(k, n-k); res = 1; for i in 1..k: res = res*(n-k+i) // i *)
 Fixpoint comb_iter (n k : Z) (j : nat) : Z :=
@@ -60,5 +89,130 @@ Fixpoint unrank {A} (rank : Z) (elements : list A) (k : nat) : option (list A) :
                      match unrank rank rest k' with Some l => Some (e :: l) | None => None end
                    else skip (rank - nrc) rest
                end) (rank - nrc) rest
+      end
+  end.
+
+(* ------------------------------------------------------------------------------
+   Combination.rank(combination, elements)   (combinatorics.py 1369-1376)
+     indices = [elements.index(x) for x in combination]      ValueError if absent
+     return Combination.from_range_rank(indices, len(elements))
+   Result: None = Python exception (ValueError of list.index, or the unbounded
+   recursion of from_range_rank when k > n).  The recursion of from_range_rank
+   decrements n at every call and stops at k = 0 or k = n, hence needs at most n+1
+   calls whenever k <= n on entry (proved: from_range_rank_fuel_ok in CombRankProofs). *)
+Fixpoint index_of (x : Z) (l : list Z) : option Z :=
+  match l with
+  | [] => None
+  | y :: r => if x =? y then Some 0
+              else match index_of x r with Some i => Some (i + 1) | None => None end
+  end.
+
+Fixpoint indices_of (c elements : list Z) : option (list Z) :=
+  match c with
+  | [] => Some []
+  | x :: r => match index_of x elements, indices_of r elements with
+              | Some i, Some l => Some (i :: l)
+              | _, _ => None
+              end
+  end.
+
+Definition comb_rank (combination elements : list Z) : option Z :=
+  match indices_of combination elements with
+  | None => None
+  | Some idx => from_range_rank (S (length elements)) idx (Z.of_nat (length elements))
+  end.
+
+(* ------------------------------------------------------------------------------
+   Combination.with_replacement_rank(combination, n)     (combinatorics.py 1411-1431)
+     k = len(c); if k == 0: return 0
+     j = c[0];   if k == 1: return j
+     if j == 0:  return wrr(c[1:], n)
+     rest = [x - j for x in c[1:]]
+     preceding = sum(comb_with_replacement(n - i, k - 1) for i in range(j))
+     return preceding + wrr(rest, n - j)
+   The list shrinks by one at every call; the fuel is the recursion depth and
+   [None] means the fuel ran out (never with fuel > length, wr_rank_fuel_ok). *)
+Fixpoint sum_cwr (n km1 : Z) (i0 : Z) (cnt : nat) : Z :=
+  (* sum_{i = i0}^{i0+cnt-1} comb_with_replacement (n - i) km1 *)
+  match cnt with
+  | O => 0
+  | S c => comb_with_replacement (n - i0) km1 + sum_cwr n km1 (i0 + 1) c
+  end.
+
+Fixpoint wr_rank_f (fuel : nat) (c : list Z) (n : Z) : option Z :=
+  match fuel with
+  | O => None
+  | S f =>
+      match c with
+      | [] => Some 0
+      | [j] => Some j
+      | j :: rest =>
+          if j =? 0 then wr_rank_f f rest n
+          else
+            let k := Z.of_nat (length c) in
+            let preceding := sum_cwr n (k - 1) 0 (Z.to_nat j) in
+            match wr_rank_f f (map (fun x => x - j) rest) (n - j) with
+            | Some r => Some (preceding + r)
+            | None => None
+            end
+      end
+  end.
+
+Definition with_replacement_rank (c : list Z) (n : Z) : option Z :=
+  wr_rank_f (S (length c)) c n.
+
+(* ------------------------------------------------------------------------------
+   Combination.with_replacement_unrank(rank, n, k)       (combinatorics.py 1433-1450)
+     if k == 0: return []
+     i = 0; preceding = cwr(n, k - 1)
+     while rank >= preceding: rank -= preceding; i += 1; preceding = cwr(n - i, k - 1)
+     rest = wru(rank, n - i, k - 1)
+     return [i] + [x + i for x in rest]
+   There is NO range check: comb returns 1 outside 0 <= k <= n, so an out-of-range
+   rank walks i past n and returns elements >= n (e.g. wru(5,1,1) = [5]).
+   The while loop subtracts preceding >= 1 at every turn (comb_pos), so it makes at
+   most rank+1 turns; the model allows 2^(log2 rank + 1) > rank turns (iter_pow, so
+   that no unary number of the size of a big-integer rank is ever built);
+   [None] = that bound was hit (never: wr_unrank_total). *)
+Definition wr_unrank_step (n km1 : Z) (s : Z * Z) : res ((Z * Z) + (Z * Z)) :=
+  let '(rank, i) := s in
+  let preceding := comb_with_replacement (n - i) km1 in
+  if rank >=? preceding then Ok (inl (rank - preceding, i + 1)) else Ok (inr (rank, i)).
+
+Definition wr_unrank_loop (rank n km1 : Z) : option (Z * Z) :=
+  match iter_pow (wr_unrank_step n km1) (S (Z.to_nat (Z.log2 rank))) (rank, 0) with
+  | Ok (inr r) => Some r
+  | _ => None
+  end.
+
+Fixpoint with_replacement_unrank (rank n : Z) (k : nat) : option (list Z) :=
+  match k with
+  | O => Some []
+  | S k' =>
+      match wr_unrank_loop rank n (Z.of_nat k') with
+      | None => None
+      | Some (rank', i) =>
+          match with_replacement_unrank rank' (n - i) k' with
+          | Some rest => Some (i :: map (fun x => x + i) rest)
+          | None => None
+          end
+      end
+  end.
+
+(* set_minus(arr, subset) = [x for x in arr if x not in set(subset)]   (1453-1454) *)
+Definition zmem (x : Z) (l : list Z) : bool := existsb (Z.eqb x) l.
+Definition set_minus (arr subset : list Z) : list Z :=
+  filter (fun x => negb (zmem x subset)) arr.
+
+(* itertools.combinations(pool, r): the r-element sub-sequences of pool in
+   lexicographic order of positions.  This is also the specification against which
+   Combination.unrank / rank are proved (CombRankProofs). *)
+Fixpoint combs {A} (pool : list A) (r : nat) : list (list A) :=
+  match r with
+  | O => [[]]
+  | S r' =>
+      match pool with
+      | [] => []
+      | e :: rest => map (cons e) (combs rest r') ++ combs rest r
       end
   end.
